@@ -5,6 +5,7 @@
   PyLite are checked, not trusted.
 -/
 import Asn1.GenKernels
+import Asn1.Stream
 import Asn1.Sexp
 
 namespace Asn1.KernelDriver
@@ -122,6 +123,18 @@ def handle : List Sexp → Option String
           | .error e => "err " ++ errName e)
       | "write" => let r := Py.bioWrite ⟨a.drop x.toNat, p⟩ (a.take x.toNat); some s!"ok {r.1} | {r.2.pos} |{ints r.2.buf}"
       | _ => none
+  | .atom "KREADTURN" :: .atom closed :: .atom cap :: .atom pos :: .atom n :: args => do
+      -- KREADTURN closed cap pos n d... : one turn of readFromStream(substrate, n) at pos on the raw stream (d, closed, cap)
+      let a ← intArgs args
+      let d : List UInt8 := a.map fun z => UInt8.ofNat z.toNat
+      let c ← cap.toNat?
+      let p0 ← pos.toInt?
+      let n0 ← n.toInt?
+      let rd : Int → Int → Option Py.Tup := fun p k =>
+        (Asn1.Stream.rawRead d (closed == "1") c p.toNat k.toNat).map fun bs => bs.map fun b => (b.toNat : Int)
+      some (match GenK.readTurn rd p0 n0 with
+        | .ok (res, p') => (match res with | none => "ok none" | some t => s!"ok some{ints t}") ++ s!" | {p'}"
+        | .error e => "err " ++ errName e)
   | .atom "KDECTAG" :: args => do
       let a ← intArgs args
       some (out (GenK.decodeTag a))
